@@ -238,6 +238,18 @@ def run_entry(entry, n, seed, acc, tier):
                 v = sg.vals[ei][0]
                 k = len(v) // 2
                 sg.vals[ei] = [v[:k] + ch.choice(['*', ':', '~', '*', ':']) + v[k + 1:]]
+        if ch.chance(.25):
+            # a line break or a tab inside a value is data (the library's own 834_eol_in_element example): it comes back as it went
+            sites = [(sg, ei) for sg in doc.segs if sg.id not in ('ISA', 'GS', 'ST', 'SE', 'GE', 'IEA')
+                     for ei, c in enumerate(sg.node.children)
+                     if c.kind == 'ele' and c.dtype == 'AN' and not c.codes and not c.ext and c.usage != 'N' and ei > 0 and ei < len(sg.vals)
+                     and len(sg.vals[ei][0]) >= 3 and c.de not in ('1250', '1251') and not c.regex]
+            for _ in range(min(2, len(sites))):
+                sg, ei = sites[ch.integer(0, len(sites) - 1)]
+                v = sg.vals[ei][0]
+                k = len(v) // 2
+                w = ch.choice([x for x in ('\r', '\r\n', '\n', '\t', '\r') if not (set(x) & set(dl))])
+                sg.vals[ei] = [v[:k] + w + v[k + 1:]]
         notused = []
         if ch.chance(.4):
             cands = faults.candidates(doc, 'not-used-filled')
